@@ -87,7 +87,15 @@ def gen(seed, tier):
         # blocked thread payloads, however many, must not use up what those calls need
         for fl_ in rng.sample(["asyncio", "trio"], rng.choice([1, 2])):
             payloads.append({"id": "hopper-" + fl_, "flavour": fl_, "via": "queued", "steps": [["sleep", rng.choice([0.1, 1.0, 1.5])], ["hop", rng.choice([1, 3]), 0.2], ["block"]]})
-    dscript += [["sleep", rng.choice([2.0, 3.0, 6.0])], ["mark", "before-shutdown"], ["shutdown"]]
+    if rng.random() < 0.1:
+        # the runtime ends because a payload interrupts (the event loop is stopped, then driven again
+        # by asyncio.run to clean up) while another thread calls shutdown(): whoever resumes the
+        # payloads for their clean-up, it is the event loop thread
+        payloads.append({"id": "kiboom", "flavour": rng.choice(["asyncio", "threading"]), "via": "adopt", "steps": [["raise", rng.choice(["KeyboardInterrupt", "SystemExit"])]]})
+        dscript += [["sleep", rng.choice([1.0, 2.0])], ["adopt", "kiboom"], ["sleep", rng.choice([0.0, 0.0, 0.001, 0.002, 0.005])], ["shutdown"]]
+        knobs["strategy"] = rng.choice([{"kind": "random", "p": 0.2}, {"kind": "random", "p": 0.5}, knobs["strategy"]])
+    else:
+        dscript += [["sleep", rng.choice([2.0, 3.0, 6.0])], ["mark", "before-shutdown"], ["shutdown"]]
     knobs["horizon"] = 60.0
     rng.shuffle(payloads)
     drivers = [{"id": "d0", "script": dscript}]
